@@ -16,7 +16,7 @@ CHECKS = {
          "Runtime monitoring: every mapping kind x alpha x offset regime (built from alpha and from (gamma, offset)) is probed at ~1500 values per mapping placed on computed bin edges +-k ulps, binade boundaries and both range ends, in increasing order; accuracy, monotonicity, containment, the int32 bound and the reported accuracy are asserted on each probe.",
          "Trusted: slack 64*u(v) (10x the worst excess observed on the unchanged tree); LowerBound(i+1) only required while bin i+1 is indexable.", "§4 C03"),
  "C04": ("exploration", "online reference-model monitor (exact index->weight map) after every store operation, layout events via hook",
-         "Runtime monitoring: seeded operation histories on dense/sparse/paginated stores (adds, weighted adds, bins, merges from all 5 kinds, copies, clears, reweights, encode/decode into fresh and into existing stores, proto through the helper and the paginated store's own method; indexes up to both ends of int32) with every observer (TotalCount, IsEmpty, Min/MaxIndex, ForEach incl. early stop, Bins, KeyAtRank on exact cumulative boundaries) compared with the mathematical map after every event; the hook shows which internal paths (array shift/grow, page allocation, compaction, capacity reuse) were reached.",
+         "Runtime monitoring: seeded operation histories on dense/sparse/paginated stores (adds, weighted adds, bins, merges from all 5 kinds, copies, clears, reweights, encode/decode into fresh and into existing stores, proto through the helper and the paginated store's own method, at once or with the message kept and merged some events later; indexes up to both ends of int32) with every observer (asked in a per-case order; half of the walks are quiet, i.e. most events are not followed by any query) (TotalCount, IsEmpty, Min/MaxIndex, ForEach incl. early stop, Bins, KeyAtRank on exact cumulative boundaries) compared with the mathematical map after every event; the hook shows which internal paths (array shift/grow, page allocation, compaction, capacity reuse) were reached.",
          "Trusted: dyadic weights under an exactness budget (float arithmetic exact); collapsing arguments follow C05's model.", "§4 C04"),
  "C05": ("exploration", "online reference-model monitor (fold model) + bound assertions via layout hook; sketch-level accuracy monitor",
          "Runtime monitoring: the C04 histories on collapsing stores for N in {1..2048} incl. merges of wider stores into empty/cleared receivers; content compared with the folded exact map after every event; #bins<=N, span<=N and (hook) allocated length<=N asserted; collapsing sketches checked against the alpha bound on retained bins and the edge-bin rule otherwise.",
@@ -31,31 +31,31 @@ CHECKS = {
          "Fault enumeration over each generated valid encoding: EVERY truncation point, undefined flags substituted at every block boundary (16 sampled per boundary in quick, all ~240 in thorough), mismatching and missing mappings, into rotating store kinds and both decoders, fresh and non-empty receivers; block boundaries come from the independent parser; success is only accepted at block boundaries with exactly the content of the complete blocks. Exhaustive per encoding over cut points, sampled over encodings.",
          "Trusted: independent parser for block boundaries; a failed decode need not be atomic; panics are caught in-process, process-fatal errors by worker isolation.", "§4 C08"),
  "C09": ("exploration", "protobuf round-trip monitor (bitwise bins) and stream-vs-message equality (proto.Equal)",
-         "Runtime monitoring: sketches with arbitrary non-negative float64 weights, negatives, cleared-then-refilled stores are converted ToProto -> Marshal -> Unmarshal -> FromProtoWithStoreProvider into all 5 store kinds (bins and zero weight compared bit for bit), the streaming writer's bytes are unmarshalled and compared with ToProto() by proto.Equal, and hand-built messages mixing sparse and contiguous bins (also with an absent store) are checked to add up; rebuilding goes through FromProtoWithStoreProvider, FromProto and the paginated store's own MergeWithProto.",
+         "Runtime monitoring: sketches with arbitrary non-negative float64 weights, negatives, cleared-then-refilled stores are converted ToProto -> Marshal -> Unmarshal -> FromProtoWithStoreProvider into all 5 store kinds (bins and zero weight compared bit for bit), the streaming writer's bytes are unmarshalled and compared with ToProto() by proto.Equal, and hand-built messages mixing sparse and contiguous bins (also with an absent store, also at both ends of the int32 index range) are checked to add up and the rebuilt sketch is written again by both writers; sources may be reweighted, wide, hold bins that underflowed to zero, and are written before or after answering queries, either writer first; the message taken must stay unchanged while its source goes on; rebuilding goes through FromProtoWithStoreProvider, FromProto and the paginated store's own MergeWithProto.",
          "Trusted: google.golang.org/protobuf v1.32.0 as the reference (un)marshaller.", "§4 C09"),
  "C10": ("exploration", "reference-model monitor (exact multiset of (value, weight), 2400-bit sum) after every event",
-         "Runtime monitoring: seeded histories over every mutating operation of the exact-summary sketch (incl. weight-0 adds, merges, decodes, copies, clears, reweights, ChangeMapping, round trips) and adversarial summation sequences; after every event count, emptiness, min, max are compared exactly, the sum against a calibrated compensated-summation bound, and every quantile against clamp(plain answer, min, max).",
+         "Runtime monitoring: seeded histories over every mutating operation of the exact-summary sketch (incl. weight-0 adds, rejected calls through every entry point, merges, decodes, copies, clears, reweights, ChangeMapping, round trips), with copies that stay alive and are merged in both directions (each checked by the same oracle), quiet stretches without queries, and adversarial summation sequences; after every (queried) event count, emptiness, min, max are compared exactly, the sum against a calibrated compensated-summation bound, and every quantile against clamp(plain answer, min, max).",
          "Trusted: dyadic weight budget; sum bound (16+8L) 2^-53 sum|v w| calibrated at <= 5.2 units on the unchanged tree; sparse-store totals with non-dyadic weights are order dependent (equality checks skipped there).", "§4 C10"),
  "C11": ("exploration", "reference-model monitor (weighted multiset with cumulative-weight intervals)",
-         "Runtime monitoring: multisets of (value, dyadic weight) with total weight from 2^-10 up (half below 1), reached by weighted adds or reweighting down, on all store and mapping kinds; each quantile answer must be within alpha of an absorbed value whose cumulative interval is within one unit of weight of q(W-1), within [min,max], and never from an empty side.",
+         "Runtime monitoring: multisets of (value, dyadic weight) with total weight from 2^-10 up (half below 1), reached by weighted adds or reweighting down, also on an object reused after Clear and on a copy that absorbs the rest of the items, on all store and mapping kinds; each quantile answer must be within alpha of an absorbed value whose cumulative interval is within one unit of weight of q(W-1), within [min,max], and never from an empty side.",
          "Trusted: float slack 64*u; cases where a bounded store folded weight are skipped (C05).", "§4 C11"),
  "C12": ("exploration", "coherence monitor over every observer after every event",
-         "Runtime monitoring: seeded histories (merge/copy/clear/decode/reweight) on both variants and all 5 store kinds with special data shapes (all-negative, all-zero, zero+negative, single, sub-minimum); after every event: count identity, emptiness, min/max in the true (or clamped) extreme bins, monotone quantiles within [min,max], batch==single, approximate sum within alpha for same-signed data, iteration totals and early stop call counts.",
+         "Runtime monitoring: seeded histories (merge/copy/clear/decode/reweight) on both variants and all 5 store kinds with special data shapes (all-negative, all-zero, zero+negative, single, sub-minimum), refused calls and all-zero blocks in between, copies that stay alive and are merged in both directions (each checked), quiet stretches without queries; after every (queried) event: count identity, emptiness, min/max in the true (or clamped) extreme bins, monotone quantiles within [min,max], batch==single, approximate sum within alpha for same-signed data, iteration totals and early stop call counts.",
          "Trusted: value-level model; clamped extremes derived from the fold model of C05.", "§4 C12"),
  "C13": ("exploration", "refused-call monitor: documented error + full observation unchanged",
-         "Runtime monitoring: on sketches in reachable states (both variants) every class of invalid call (NaN/Inf/out-of-range values incl. neighbours of MaxIndexableValue, negative weights, invalid quantiles single and batch, empty-sketch queries, mismatched merges, non-positive reweights) must return the documented error and leave the observation bitwise unchanged; valid boundary inputs must be accepted; constructors are swept over finite parameters for error-or-usable-object.",
+         "Runtime monitoring: on sketches in reachable states (both variants) every class of invalid call (NaN/Inf/out-of-range values incl. neighbours of MaxIndexableValue, negative weights, invalid quantiles single and batch, empty-sketch queries incl. sketches whose every weight underflowed to zero, mismatched merges, non-positive reweights) must return the documented error and leave the observation bitwise unchanged; valid boundary inputs must be accepted; constructors are swept over finite parameters for error-or-usable-object.",
          "Trusted: sentinel errors exported by the package; NaN weights/factors/constructor parameters are outside the contract and not sent.", "§4 C13"),
  "C14": ("exploration", "twin monitor (read-perturbed vs quiet, copy vs sequential replay) + Go race detector as aliasing monitor",
-         "Runtime monitoring: twins receive the same mutation history, one also receives random read-only calls (incl. Encode/ToProto/EncodeProto/Copy/being a merge or ChangeMapping source); observations must be identical across every read and between twins; copies must equal their originals and stay independent under disjoint suffixes. Second pass with the race-detector build: an object and its Copy hammered by two unsynchronised goroutines; any DATA RACE report is shared mutable state.",
+         "Runtime monitoring: twins receive the same mutation history, one also receives random read-only calls (incl. Encode/ToProto/EncodeProto/Copy/being a merge or ChangeMapping source, also for unit changes so drastic that content falls under the new mapping's range); observations must be identical across every read and between twins; copies must equal their originals and stay independent under disjoint suffixes. Second pass with the race-detector build: an object and its Copy hammered by two unsynchronised goroutines; any DATA RACE report is shared mutable state.",
          "Trusted: Go race detector (reports only races it observes); dyadic weights make observations bitwise comparable.", "§4 C14"),
  "C15": ("exploration", "twin monitor (cleared-and-reused vs freshly constructed) after every event; store level via exact model",
-         "Runtime monitoring: X = H1; Clear; H2 against Y = new; H2 with the observation compared after Clear and after every event of H2, H2 in other index ranges, repeated clear/reuse cycles, decode/merge as first event; sketch level on both variants and all 5 store kinds, store level against the exact model of a fresh store with all observers; the hook shows retained capacity being reused and collapsed stores being cleared.",
+         "Runtime monitoring: X = H1; Clear; H2 against Y = new; H2 with the observation compared after Clear and after every event of H2, H2 in other index ranges, repeated clear/reuse cycles, decode/merge as first event, Clear issued after every weight underflowed to zero, interrupted decodes (cut payloads) applied to both twins; sketch level on both variants and all 5 store kinds, store level against the exact model of a fresh store with all observers; the hook shows retained capacity being reused and collapsed stores being cleared.",
          "Trusted: dyadic weights; fold model for bounded stores.", "§4 C15"),
  "C16": ("exploration", "reference-model monitor (scaled model) + differential against a sketch rebuilt with scaled weights",
-         "Runtime monitoring: after a seeded history, Reweight(w) with dyadic w (<1, =1, >1) on both variants and all 5 store kinds; every bin, zero weight and count must equal the model scaled by w exactly, exact sum within bound, exact min/max unchanged, and the observation must equal that of a second real sketch fed the same items with weights*w; the hook shows paginated stores holding buffered and paged indexes at the call.",
+         "Runtime monitoring: after a seeded history (incl. identity conversions and copies that stay alive, are reweighted on their own and merged with the sketch), Reweight(w) with dyadic w (<1, =1, >1) on both variants and all 5 store kinds; every bin, zero weight and count must equal the model scaled by w exactly, exact sum within bound, exact min/max unchanged, and the observation must equal that of a second real sketch fed the same items with weights*w; the hook shows paginated stores holding buffered and paged indexes at the call.",
          "Trusted: dyadic weight budget.", "§4 C16"),
  "C17": ("exploration", "transport-condition monitor (interval Hall condition) + combined-accuracy quantile oracle",
-         "Runtime monitoring: sources (both variants, both signs) converted over all 9 ordered mapping-kind pairs x alpha pairs with scales in [1e-3,1e3] incl. bin-aligned factors; result mapping, untouched source, zero weight, total weight, absence of non-positive bins, Min/MaxIndex, the per-boundary transport inequalities, the combined-accuracy quantile rule, identity = independent exact copy, and exact statistics rescaling are asserted.",
+         "Runtime monitoring: sources (both variants, both signs) converted over all 9 ordered mapping-kind pairs x alpha pairs with scales in [1e-3,1e3] incl. bin-aligned factors, 40% of the sources converted before answering any query; result mapping, untouched source, zero weight, total weight, absence of non-positive bins, Min/MaxIndex, the per-boundary transport inequalities, the combined-accuracy quantile rule, identity = independent exact copy, and exact statistics rescaling are asserted.",
          "Trusted: classification tolerance 1e-9 at bin bounds and weight slivers 1e-9 W; values well inside both ranges.", "§4 C17"),
  "C18": ("exploration", "independent reference codec + complete sweep of all byte strings of length <= 2 + seeded hostile strings",
          "Runtime monitoring: all primitive codecs are compared with an independent reference on 2^k+-d values, every bit-length class, extremes, random 64-bit patterns (as uint, int and float bits) with arbitrary prefixes/trailers, every strict prefix, and on every byte string of length <= 2 (complete) plus random strings up to 12 bytes: bytes, values, sizes, framing, EOF-without-consumption, int32 range, no panic, <= 9 bytes.",
@@ -64,7 +64,7 @@ CHECKS = {
          "Runtime monitoring: each mapping of the grid (incl. non-default offsets) goes through binary Encode/Decode, ToProto/Marshal/Unmarshal/FromProto and EncodeProto/Unmarshal/FromProto; the restored mapping must be Equals both ways and agree bitwise on Index (300 probes), Value, LowerBound, accuracy and range; reflexivity, symmetry and inequality across kinds, accuracies >=0.1% apart and clearly different offsets are asserted on pairs.",
          "Trusted: protobuf library.", "§4 C19"),
  "C20": ("exploration", "reference-model monitor (own sort, exact rank, 2200-bit sum)",
-         "Runtime monitoring: interleaved Add/query/Merge histories on the dataset helper with duplicates, negatives, unsorted arrival and additions after queries; lower/upper quantiles compared with the order statistics at floor/ceil of the rank (float and exact product both accepted), NaN rules, exact min/max/count, sum bound, merge == adding all.",
+         "Runtime monitoring: interleaved Add/query/Merge histories on the dataset helper with duplicates, negatives, unsorted arrival and additions after queries, whole checkpoints and single queries asked on their own right after additions, small value pools; lower/upper quantiles compared with the order statistics at floor/ceil of the rank (float and exact product both accepted), NaN rules, exact min/max/count, sum bound, merge == adding all.",
          "Trusted: q=NaN is outside the stated domain.", "§4 C20"),
 }
 
